@@ -33,7 +33,7 @@ theorem asVals_map_val : ∀ vs : List Val, asVals (vs.map Item.val) = some vs
 theorem shared_intermediate (g : Graph) (d : DenCfg) (ok : GraphOK g) (n : Nat) (he : (g.node n).edge = some .product)
     (vs : List Val) (h : interpReqs (ctxOf g d n) ((List.range (g.parents n).length).map .parentValue) = .ok (vs.map .val)) :
     (den g d n).v = .ok (.tup vs) := by
-  rw [(den_inner g d ok n .product he).2]
+  rw [(den_inner g d ok.toGraphBase n .product he).2]
   simp only [EdgeK.evalProg, staticEval, interp, interpReq, h, Except.map]
   simp only [asVals_map_val, interp]
   rfl
